@@ -25,7 +25,7 @@ RULE = ("case = buffer size + drawing program (text/erase/skip/char/hline/vline/
 ASSUMPTIONS = ["no int overflow (|coordinate| < 2^30)",
                "texts are well-formed UTF-8: any code points 1..0x1FFFFF (one to four bytes; the width function is the "
                "library's own, property C07; C0/C1 controls and DEL make a string invalid)",
-               "pens carry only fg, bg, bold, underline (the model's four attributes)",
+               "pens carry any of the ten attributes over their representable values, colours with or without an RGB8 secondary (the pen algebra is property C19's)",
                "line styles 1..3, caps 0..3; buffers have at least one line and one column"]
 TRUSTED = ["model coq/RBDefs.v hand-written after src/renderbuffer.c (drawing part); specification coq/RBSpec.v "
            "(per-cell grid operations, abs, boolean WF and equality checkers)",
